@@ -15,6 +15,18 @@ def build_replay(repo):
     env = dict(os.environ)
     env["CARGO_NET_OFFLINE"] = "true"
     env["VERIF_REPO_SRC"] = os.path.join(repo, "src")
+    # the replay crate reads the repository through two symlinks (so that VERIF_REPO can point at a scratch copy)
+    for link, target in ((os.path.join(VERIF, ".cache", "repo_src"), os.path.join(repo, "src")),
+                         (os.path.join(VERIF, "replay", "tracer_logger.js"), os.path.join(repo, "tracer_logger.js"))):
+        try:
+            if os.path.islink(link) and os.readlink(link) == target:
+                continue
+            if os.path.lexists(link):
+                os.remove(link)
+            os.makedirs(os.path.dirname(link), exist_ok=True)
+            os.symlink(target, link)
+        except OSError:
+            pass
     env["RUSTFLAGS"] = "--cfg dd_iast_verif"
     env["CARGO_TARGET_DIR"] = os.path.join(VERIF, ".cache", "target")
     p = subprocess.run(["cargo", "build", "--release", "--offline", "-q"], cwd=os.path.join(VERIF, "replay"),
